@@ -36,7 +36,7 @@ def main (args : List String) : IO UInt32 := do
       if ws.head? == some "thashspec" then (st, Driver.THash.handle ws)
       else if ws.head? == some "phvalid" || ws.head? == some "phupd" then (st, Driver.PHash.handle ws)
       -- transcript-hash / membership-tag rows on real message bytes (stateless)
-      else if ws.head? == some "th" || ws.head? == some "mtag" then (st, Driver.TH.handle ws)
+      else if ws.head? == some "th" || ws.head? == some "thp" || ws.head? == some "mtag" then (st, Driver.TH.handle ws)
       else Driver.TreeD.step st ws) {}; return 0
   | ["c12"] => loopS stdin stdout (fun (_ : Unit) ws => ((), Driver.C12.handle ws)) (); return 0
   | ["c14"] => loopS stdin stdout (fun (_ : Unit) ws => ((), Driver.C14.handle ws)) (); return 0
